@@ -74,11 +74,11 @@ func h06Disjoint(a, b *Entry) {
 	for k := range da {
 		check(!db[k], "two uses of a grouping share no child map")
 	}
-	// (The backing array of the Default slice is shared by copies on the unchanged tree; it is
-	// never written through, so that is not observable and not demanded here: the behavioural
-	// check below - a default replaced in one instance must not show in another - is what the
-	// property states.)
-	_, _ = fa, fb
+	// (shared default storage is observable: appending a default to one instance's leaf-list
+	// can overwrite another instance's, when the backing array has spare capacity)
+	for k := range fa {
+		check(!fb[k], "two uses of a grouping share no default-value storage")
+	}
 }
 
 // h06Sub renders the children of e (not e itself, whose name differs between instances).
